@@ -8,7 +8,11 @@
 (* Coordinates are doubled integers, so cell centres are exact.              *)
 EXTENDS FinamBase, TLC
 
-AxisPts(kind, n) == IF kind = "rect" THEN [k \in 1..n |-> (k - 1) * k] ELSE [k \in 1..n |-> 2 * (k - 1)]
+(* "rect": 0, 2, 6, 12 (irregular); "rectb": same first and last node, other interior nodes *)
+AxisPts(kind, n) ==
+  CASE kind = "rect"  -> [k \in 1..n |-> (k - 1) * k]
+    [] kind = "rectb" -> [k \in 1..n |-> IF k = 1 THEN 0 ELSE IF k = n THEN (n - 1) * n ELSE (k - 1) * k + 2]
+    [] OTHER -> [k \in 1..n |-> 2 * (k - 1)]
 Centres(p) == IF Len(p) = 1 THEN p ELSE [k \in 1..(Len(p) - 1) |-> (p[k] + p[k + 1]) \div 2]
 D(L) == Len(L.dims)
 (* data coordinates along natural axis a, increasing *)
